@@ -27,3 +27,14 @@ claim("C18", "proof",
       "Claim is over the token grammar, not over all strings. Trusted: token-string model of str operations (R4 pseudo "
       "characters), A5 float(repr(x))==x. Quick tier covers 3-factor strings with separators './'; thorough all four pairs.",
       "deductive: token-level symbolic execution of real parser/printer + SMT", "DESIGN.md 3/C18")
+claim("C19", "proof",
+      "Reaction(...) is executed on token strings for every equation shape (0-4 terms on the explored side, coefficient "
+      "present/absent, every aliasing pattern of labels; 291 shapes per side, symbolic non-negative coefficients, blank runs of "
+      "any length): per-species reactant/product coefficients with repeats summed, net change, orders, rate-constant "
+      "dimensions (3n-3,-1,1-n), print->parse round trip; setters (number gets the reaction's units, quantity of another "
+      "dimension raises iff wrong), split, equilibrium constant (scalar and per-environment with default fallback), "
+      "malformed equations raise, network validity (raises iff undeclared species / duplicate labels) over all small label "
+      "assignments. All obligations discharged by SMT.",
+      "Labels are concrete names with all aliasing patterns (label opacity assumption); orders 0..8 via symbolic coefficients. "
+      "Network validity is an exhaustive enumeration over 3 names x 2 species x 2 reactions (finite, exhaustive).",
+      "deductive: token-level symbolic execution of real source + SMT", "DESIGN.md 3/C19")
